@@ -766,7 +766,7 @@ def replay_vectors(ctx, sts):
 
 TIERS = {
     "quick":    {"sim_num": 40, "sim_depth": 30, "rand_runs": 3, "rand_steps": 2000},
-    "thorough": {"sim_num": 500, "sim_depth": 80, "rand_runs": 9, "rand_steps": 5000},
+    "thorough": {"sim_num": 125, "sim_depth": 60, "rand_runs": 9, "rand_steps": 5000},
 }
 
 
